@@ -35,7 +35,12 @@ TInit == /\ tid \in 1..Len(Traces)
 Ev(a) == l <= Len(Tr) /\ Tr[l].a = a /\ l' = l + 1 /\ UNCHANGED tid
 
 Started == { e \in Entry : vrun[e] = 0 /\ vrun'[e] # 0 }
-InFlight == IF "x" \in DOMAIN Tr[l] THEN SeqToSet(Tr[l].x) ELSE {}
+XOf(i) == IF "x" \in DOMAIN Tr[i] THEN SeqToSet(Tr[i].x) ELSE {}
+\* the cancellations in flight of one stimulus: those of the event itself and of the hidden events right in front of it
+\* (a delivery recorded as RecvData (hidden, carries x) + ValFinish ... is ONE stimulus)
+RECURSIVE HiddenX(_)
+HiddenX(i) == IF i >= 1 /\ "hidden" \in DOMAIN Tr[i] THEN XOf(i) \cup HiddenX(i - 1) ELSE {}
+InFlight == XOf(l) \cup HiddenX(l - 1)
 \* A packet handed over in the SAME loop iteration in which lifetime timers are due (the packet's callback first, the
 \* timer handles behind it in the ready queue) is recorded as two events, RecvData marked "hidden" + Fire: nothing can be
 \* observed between the two, so the hidden step is constrained only by the specification's action and the Fire step
@@ -59,7 +64,7 @@ TExpress == Ev("Express") /\ (Express(Tr[l].t, Tr[l].defer) \/ (~Tr[l].defer /\ 
 TAwait == Ev("Await") /\ Await(Tr[l].e) /\ PostOk
 TExpressDown == Ev("ExpressDown") /\ ExpressDown(Tr[l].t) /\ PostOk
 TRecvData == Ev("RecvData") /\ ~Hidden /\ RecvDataX(Tr[l].d, Tr[l].env, SeqToSet(Tr[l].x)) /\ PostOk
-TRecvDataHidden == Ev("RecvData") /\ Hidden /\ RecvDataX(Tr[l].d, Tr[l].env, InFlight)
+TRecvDataHidden == Ev("RecvData") /\ Hidden /\ RecvDataX(Tr[l].d, Tr[l].env, XOf(l))
 \* a validator that answers in the very step in which it is called (the library's pass_all): its verdict follows the
 \* delivery without anything observable in between
 TValFinishHidden == Ev("ValFinish") /\ Hidden /\ ValFinish(Tr[l].e, Tr[l].v)
@@ -76,10 +81,15 @@ TCancelDone == Ev("Cancel") /\ ph[Tr[l].e] \in {"fin", "unused"} /\ UNCHANGED va
 TShutdown == Ev("Shutdown") /\ Shutdown /\ PostOk
 TConnect == Ev("Connect") /\ Connect /\ PostOk
 TRecvNack == Ev("RecvNack") /\ RecvNackX(Tr[l].t, Tr[l].r, Tr[l].env, SeqToSet(Tr[l].x)) /\ PostOk
+\* the driver hands a Nack over together with the timers it believes due; when none is (legacy: the lifetime of an Interest
+\* awaited late may count from the await) the stimulus is a plain Nack
+TRecvNackFire == /\ Ev("RecvNackFire")
+                 /\ (RecvNackFire(Tr[l].t, Tr[l].r, Tr[l].env) \/ (Due = {} /\ RecvNackX(Tr[l].t, Tr[l].r, Tr[l].env, {})))
+                 /\ PostOk
 TRecvJunk == Ev("RecvJunk") /\ RecvJunk("junk") /\ PostOk
 
 TNext == \/ TExpress \/ TAwait \/ TExpressDown \/ TRecvData \/ TRecvDataHidden \/ TValFinishHidden \/ TValFinish \/ TValNobody \/ TFire \/ TFireNone \/ TFireHidden
-         \/ TTick \/ TJump \/ TCancel \/ TCancelDone \/ TShutdown \/ TConnect \/ TRecvNack \/ TRecvJunk
+         \/ TTick \/ TJump \/ TCancel \/ TCancelDone \/ TShutdown \/ TConnect \/ TRecvNack \/ TRecvNackFire \/ TRecvJunk
 TSpec == TInit /\ [][TNext]_tvars
 
 Mark == TLCSet(tid, Max2(TLCGet(tid), l))
